@@ -29,6 +29,10 @@ func ZZ_C10_WriteStep() {
 	r.revisionCache = c0
 	mode := zzModes[zzConcretize(zzChoice("mode", len(zzModes)))]
 	r.mode = mode
+	// the persisted rebuilding marker is cleared by the sync task only after the controller
+	// has promoted the replica (RW + counter equalised): RW with the marker still set is a
+	// state every rebuild passes through, and writes arriving in it count
+	r.info.Rebuilding = zzNondetBool("rebuilding-marker-still-set")
 	head := zzHeadBlob(r)
 	head.failNextWrite = zzNondetBool("data.write.fails")
 	dataFails := head.failNextWrite
